@@ -191,3 +191,63 @@ def account(chk, pid, results):
             chk.inconclusive_case(v["why"], case)
         else:
             chk.violation(v["key"], v["why"], case)
+
+
+def _hl5_region(case):
+    hl = int(case.get("cfg.hierarchical_levels", 4))
+    lp = int(case.get("cfg.logical_processors", 0))
+    ov = int(case.get("cfg.enable_overlays", 0))
+    return hl == 5 and (ov or 1 <= lp <= 2)
+
+
+def known_hang_region(case):
+    """Configurations already known to deadlock the encoder (open finding: with a 6-layer hierarchy the picture
+    pools are undersized when overlays are on or when <= 2 logical processors are used; measured by a sweep:
+    0 packets come out for >= 32 pictures).  Checks for which a hang is in scope still run them (short watchdog);
+    the others skip them because they cannot be judged there."""
+    try:
+        return _hl5_region(case) and int(case.get("frames", 0)) >= 32
+    except ValueError:
+        return False
+
+
+def hang_sig(case):
+    try:
+        if _hl5_region(case):
+            return "hl5+(overlays|lp<=2)"
+    except ValueError:
+        pass
+    return feature_sig(case) + "|hl%s+lp%s" % (case.get("cfg.hierarchical_levels", "d"), case.get("cfg.logical_processors", "d"))
+
+
+def log_tail(prefix, n=3):
+    try:
+        lines = open(prefix + ".log").read().strip().split("\n")
+        return " / ".join(lines[-n:])
+    except OSError:
+        return ""
+
+
+def read_tag(frame):
+    """Decode the two-digit tag painted by the content generator (vcommon.h) from a decoded picture."""
+    key, w, h, bd, data = frame
+    bps = 2 if bd > 8 else 1
+    if w < 32 or h < 16:
+        return None
+    digits = []
+    for d in range(2):
+        tot = 0
+        cnt = 0
+        for y in range(4, 12):
+            row = (y * w + d * 16 + 4) * bps
+            for x in range(8):
+                if bps == 1:
+                    v = data[row + x]
+                else:
+                    v = (data[row + 2 * x] | (data[row + 2 * x + 1] << 8)) >> (bd - 8)
+                tot += v
+                cnt += 1
+        mean = tot / cnt
+        digit = int(round((mean - 20) / 30.0))
+        digits.append(max(0, min(7, digit)))
+    return digits[0] + 8 * digits[1]
